@@ -20,10 +20,15 @@ import os
 
 MODULES = ['suit', 'pair', 'vul', 'player', 'bid', 'card', 'contract', 'score', 'bidding_phase', 'playing_phase', 'hands',
            'data_handler/abstract_classes', 'data_handler/pbn_handler/__init__', 'data_handler/pbn_handler/writer', 'data_handler/json_handler/writer',
-           'data_handler/json_handler/parser', 'network_bridge/bidding_system', 'network_bridge/server']
+           'data_handler/json_handler/parser', 'network_bridge/bidding_system', 'network_bridge/socket_interface', 'network_bridge/server',
+           'network_bridge/client']
 
 # modules of which only the listed methods are translated (the rest of the module is threads, sockets and queues)
-SELECT = {'network_bridge/server': {'Server': ['hand_to_str']}}
+SELECT = {'network_bridge/server': {'Server': ['hand_to_str', 'convert_vul', 'remove_alert_word'],
+                                    'PlayerThread': ['parse_connection_info']},
+          'network_bridge/socket_interface': {'MessageInterface': ['parse_match_base', 'parse_bid', 'parse_card']},
+          'network_bridge/client': {'Client': ['parse_team_names', 'parse_board', 'parse_cards', 'parse_hand',
+                                               'create_bid_message', 'parse_leader_message', 'card_str']}}
 
 # a file object, as far as the JSON writer / parser use one: `write` appends a chunk, `json.load` reads the chunks joined
 PRELUDE = '''
@@ -33,6 +38,18 @@ class _File:
 
     def write(self, s):
         self.buf.append(s)
+
+
+# what `re.match` & co. return, as far as the core uses it: the texts of group 0, 1, … (None for a group that did not take part)
+class _Match:
+    def __init__(self, texts):
+        self.texts = texts
+
+    def group(self, i):
+        return self.texts[i]
+
+    def groups(self):
+        return tuple(self.texts[1:])
 
 
 # a `datetime.date`, as far as the PBN writer uses one: `strftime('%Y.%m.%d')` gives the text it was made from
@@ -75,6 +92,10 @@ REQUIRED = [
     ('PbnWriter', 'write_line'), ('PbnWriter', 'write_header'), ('PbnWriter', 'write_tag_pair'),
     ('PbnWriter', 'write_board_result'), ('PbnWriter', 'create_contents_sequence'),
     ('Server', 'hand_to_str'), ('WeakBid', 'bid'), ('AlwaysPass', 'bid'),
+    ('Server', 'convert_vul'), ('Server', 'remove_alert_word'), ('PlayerThread', 'parse_connection_info'),
+    ('MessageInterface', 'parse_match_base'), ('MessageInterface', 'parse_bid'), ('MessageInterface', 'parse_card'),
+    ('Client', 'parse_team_names'), ('Client', 'parse_board'), ('Client', 'parse_cards'), ('Client', 'parse_hand'),
+    ('Client', 'create_bid_message'), ('Client', 'parse_leader_message'), ('Client', 'card_str'),
 ]
 
 K = {'value': 1, 'name': 2, '__str__': 3, '__int__': 4, '__lt__': 5, '__le__': 6, '__gt__': 7, '__ge__': 8,
@@ -164,6 +185,18 @@ class Translator:
             return -node.operand.value
         if isinstance(node, (ast.Tuple, ast.List)):
             return tuple(self.literal(e) for e in node.elts)
+        if isinstance(node, ast.JoinedStr):
+            # a module-level f-string made of text and earlier string constants (DEAL_PATTERN)
+            out = []
+            for v in node.values:
+                if isinstance(v, ast.Constant) and isinstance(v.value, str):
+                    out.append(v.value)
+                elif isinstance(v, ast.FormattedValue) and isinstance(v.value, ast.Name) and v.format_spec is None \
+                        and v.conversion == -1 and isinstance(self.globals.get(v.value.id), str):
+                    out.append(self.globals[v.value.id])
+                else:
+                    raise Skip('not a literal')
+            return ''.join(out)
         raise Skip('not a literal')
 
     def collect_class(self, node, module):
@@ -530,6 +563,15 @@ class Translator:
                 return f'(.builtin .{"sortedDesc" if rev else "sorted"} [{self.expr(node.args[0])}])'
             if f.id == 'dict' and not node.args and not node.keywords:
                 return '(.dictOf [])'
+            if f.id == 'zip' and len(node.args) == 2 and not node.keywords:
+                return f'(.builtin .zip [{self.expr(node.args[0])}, {self.expr(node.args[1])}])'
+            if f.id == 'map' and len(node.args) == 2 and not node.keywords and isinstance(node.args[0], ast.Lambda) \
+                    and len(node.args[0].args.args) == 1 and not node.args[0].args.defaults:
+                # map(lambda x: e, it) = [e for x in it]
+                x = node.args[0].args.args[0].arg
+                it = self.expr(node.args[1])
+                self.locals.add(x)
+                return f'(.comp {self.ident(x)} {it} none {self.expr(node.args[0].body)})'
             if f.id in BUILTINS:
                 if node.keywords:
                     raise Skip(f'{f.id} with keywords')
@@ -584,6 +626,14 @@ class Translator:
             if f.attr == 'join' and isinstance(f.value, ast.Constant) and isinstance(f.value.value, str) \
                     and len(node.args) == 1 and not node.keywords:
                 return f'(.builtin .join [{self.expr(f.value)}, {self.expr(node.args[0])}])'
+            if f.attr in ('lower', 'upper', 'capitalize') and not node.args and not node.keywords:
+                return f'(.builtin .{f.attr} [{self.expr(f.value)}])'
+            if f.attr == 'replace' and len(node.args) == 2 and not node.keywords:
+                return f'(.builtin .replace [{self.expr(f.value)}, {self.expr(node.args[0])}, {self.expr(node.args[1])}])'
+            if f.attr == 'split' and len(node.args) == 1 and not node.keywords:
+                return f'(.builtin .split [{self.expr(f.value)}, {self.expr(node.args[0])}])'
+            if isinstance(f.value, ast.Name) and f.value.id == 're' and 're' not in self.locals:
+                return self.re_call(f.attr, node)
             if f.attr == 'isupper' and not node.args and not node.keywords:
                 return f'(.builtin .isupper [{self.expr(f.value)}])'
             if f.attr == 'items' and not node.args and not node.keywords \
@@ -605,6 +655,33 @@ class Translator:
                     raise Skip(f'mutating method {f.attr} used in an expression')
             return f'(.meth {self.expr(f.value)} {self.ident(f.attr)} {self.elist([self.expr(a) for a in node.args])})'
         raise Skip('call shape')
+
+    def re_call(self, fn, node):
+        """re.match / fullmatch / search / sub / findall with an optional re.IGNORECASE flag"""
+        args = list(node.args)
+        ic = False
+        flags = [k.value for k in node.keywords if k.arg == 'flags']
+        if any(k.arg not in ('flags',) for k in node.keywords):
+            raise Skip(f're.{fn} with keywords')
+        npos = {'match': 2, 'fullmatch': 2, 'search': 2, 'findall': 2, 'sub': 3}.get(fn)
+        if npos is None:
+            raise Skip(f're.{fn}')
+        if len(args) == npos + 1:
+            flags.append(args.pop())
+        if len(args) != npos or len(flags) > 1:
+            raise Skip(f're.{fn} argument shape')
+        if flags:
+            if ast.unparse(flags[0]) != 're.IGNORECASE':
+                raise Skip(f're flags {ast.unparse(flags[0])}')
+            ic = True
+        icv = '(.const (.bool true))' if ic else '(.const (.bool false))'
+        a = [self.expr(x) for x in args]
+        if fn in ('match', 'fullmatch', 'search'):
+            return (f'(.builtin .re{fn.capitalize()} [{a[0]}, {a[1]}, {icv}, (.const (.cls {self.ident("_Match")})), '
+                    f'(.const (.int {self.ident("texts")}))])')
+        if fn == 'sub':
+            return f'(.builtin .reSub [{a[0]}, {a[1]}, {a[2]}, {icv}])'
+        return f'(.builtin .reFindall [{a[0]}, {a[1]}, {icv}])'
 
     def static_call(self, cname, mname, node, explicit_self):
         r = self.find_method(cname, mname)
@@ -845,7 +922,7 @@ class Translator:
         if kind.startswith('unsupported'):
             raise Skip(kind)
         for n in ast.walk(fd):
-            if isinstance(n, (ast.FunctionDef, ast.Lambda, ast.Try, ast.With, ast.Yield, ast.YieldFrom, ast.Global, ast.Nonlocal,
+            if isinstance(n, (ast.FunctionDef, ast.Try, ast.With, ast.Yield, ast.YieldFrom, ast.Global, ast.Nonlocal,
                               ast.Delete, ast.Import, ast.ImportFrom, ast.ClassDef, ast.AsyncFunctionDef, ast.Await)) and n is not fd:
                 raise Skip(f'{type(n).__name__} in the body')
         defaults = []
@@ -858,14 +935,15 @@ class Translator:
                 ',\n  body := ' + body + ' }')
 
     # ------------------------------------------------------------------ output
-    GROUPS = [('Base', ['suit', 'pair', 'vul', 'player', 'bid', 'card', 'contract', 'score'], 100),
+    GROUPS = [('Base', ['_prelude', 'suit', 'pair', 'vul', 'player', 'bid', 'card', 'contract', 'score'], 100),
               ('Auction', ['bidding_phase'], 2000),
               ('Play', ['playing_phase'], 3000),
               ('Hands', ['hands'], 4000),
-              ('Json', ['_prelude', 'data_handler/abstract_classes', 'data_handler/pbn_handler/__init__',
+              ('Json', ['data_handler/abstract_classes', 'data_handler/pbn_handler/__init__',
                         'data_handler/pbn_handler/writer',
                         'data_handler/json_handler/writer', 'data_handler/json_handler/parser'], 5000),
-              ('Net', ['network_bridge/bidding_system', 'network_bridge/server'], 6000)]
+              ('Net', ['network_bridge/bidding_system', 'network_bridge/socket_interface', 'network_bridge/server',
+                       'network_bridge/client'], 6000)]
 
     def names_of(self, module):
         names = set()
@@ -909,7 +987,7 @@ class Translator:
                     group_of_name[n] = gname
                     nxt += 1
         group_of_module = {m: g for g, mods, _ in self.GROUPS for m in mods}
-        group_of_module.setdefault('_prelude', 'Json')
+        group_of_module.setdefault('_prelude', 'Base')
         defs = {g: [] for g, _, _ in self.GROUPS}
         funcs = []
         methods = {}
